@@ -360,7 +360,8 @@ func TestPropLogin(t *testing.T) {
 			write(id, parent, data.Points{{Type: data.PointTypeTombstone, Value: v, Time: tick()}})
 			g.Edge(parent, id).Tomb = del
 		}
-		users := []userRec{{"u0", "a@x.org", "pw0"}, {"u1", "b@x.org", "pw1"}}
+		// e-mails are matched as they are stored (one of them has capitals)
+		users := []userRec{{"u0", "a@x.org", "pw0"}, {"u1", "B.User@X.org", "pw1"}}
 		groups := []string{"g0", "g1", "g2"}
 		placedGroups := []string{}
 		for _, u := range users {
